@@ -1754,10 +1754,19 @@ class C04(Prop):
                 if spec != serde and serde != "PANIC":
                     res.model_disagreements.append(dict(key=f"c04:reference-semantics-is-not-serde_json:type-{tid}", case=case, detail=f"Lean {spec[:120]} serde_json {serde[:120] if serde else None}"))
                 ref = spec
+            mdl = M.get("model")
+            if spec is not None and spec != "NOTMODELLED":
+                if mdl is None or mdl == "FUEL":
+                    res.model_disagreements.append(dict(key="c04:deserializer-model-output-missing", case=case, detail=str(mdl)))
+                else:
+                    res.distribution["de-model:" + ("accept" if mdl != "R" else "reject")] += 1
             for fld in ("sonic", "sonic_slice"):
                 got = I.get(fld)
                 if got in (None, "NA"):
                     continue
+                # correspondence: the Lean model of src/serde/de.rs (Impl/De.lean) against the implementation
+                if mdl not in (None, "FUEL") and got != "PANIC" and got != mdl:
+                    res.model_disagreements.append(dict(key=f"c04:deserializer-model-vs-{fld}:type-{tid}", case=case, detail=f"impl {got[:120]} model {mdl[:120]}"))
                 if got == "PANIC":
                     res.oracle_failures.append(dict(key=f"C04|type-{tid}|panic", case=case, detail="the library panicked"))
                 elif got != ref:
